@@ -5,6 +5,7 @@
  *   server <sid> t4|t6|un imm|defer|never     raw <cid> <sid>     uvc <cid> <sid>     run <n>
  *   inject <errno>...      accept <sid> [busy]     drain <sid>     closesrv <sid>     closecli <cid>
  *   ipcbig <kinds> <payload> <caps..>   (uv_write2 with handle + payload; the k-th syscall on the sending fd accepts at most caps[k] bytes, -11 = EAGAIN, 0 = unlimited)
+ *   server .. <backlog>   (optional 5th word)     cscript <codes..>   (results of the connect(2) calls of the NEXT uvc: 1 = real call, -4 = EINTR then retry, other -errno = fail without reaching the kernel)
  *   badconnect <cid> tcp|pipe|long|longnt [close]     dblconnect <cid> <cid>     ipc <kinds> <late|imm|N>     wcheck     end
  * Output: one line per API result / callback / observation (see checks/c07_sim.py). */
 #include <uv.h>
@@ -72,11 +73,31 @@ ssize_t write(int fd, const void* b, size_t n) {
   return syscall(SYS_write, fd, b, n);
 }
 
+/* ---- connect(2) of uv clients: scripted results; SO_ERROR queries logged */
+static int cur_cid = -1, cscript[32], ncscript, icscript;
+static int cid_of_fd(int fd);
+int connect(int fd, const struct sockaddr* a, socklen_t l) {
+  int r, code = 1;
+  if (cur_cid < 0) return syscall(SYS_connect, fd, a, l);
+  if (icscript < ncscript) code = cscript[icscript++];
+  if (code < 0) { errno = -code; r = -1; }
+  else r = syscall(SYS_connect, fd, a, l);
+  printf("sys connect cid=%d ret=%d%s\n", cur_cid, r == 0 ? 0 : -errno, code < 0 ? " scripted" : "");
+  return r;
+}
+int getsockopt(int fd, int level, int name, void* val, socklen_t* len) {
+  int r = syscall(SYS_getsockopt, fd, level, name, val, len);
+  if (level == SOL_SOCKET && name == SO_ERROR && r == 0 && cid_of_fd(fd) >= 0)
+    printf("sys soerror cid=%d val=%d\n", cid_of_fd(fd), -*(int*) val);
+  return r;
+}
+
 typedef struct { uv_stream_t* h; int kind; int mode; int alive; int announced, claimed; char path[64]; int port; } server_t;
 typedef struct { int used; int raw; int fd; uv_stream_t* h; uv_connect_t req; int sid; int cbs; int status; int ret; int closed; } client_t;
 typedef struct { uv_stream_t* h; int sid; int seq; } acc_t;
 static server_t srv[MAXN]; static client_t cli[MAXN]; static acc_t accd[512]; static int naccd;
 
+static int cid_of_fd(int fd) { int i; for (i = 0; i < MAXN; i++) if (cli[i].used && !cli[i].raw && !cli[i].closed && cli[i].h && cli[i].h->io_watcher.fd == fd) return i; return -1; }
 static void free_cb(uv_handle_t* h) { free(h); }
 static uv_stream_t* new_stream(int kind) {      /* 0 t4, 1 t6, 2 unix */
   if (kind == 2) { uv_pipe_t* p = malloc(sizeof *p); uv_pipe_init(loop, p, 0); return (uv_stream_t*) p; }
@@ -109,7 +130,9 @@ static void conn_cb(uv_stream_t* h, int status) {
 static void connect_cb(uv_connect_t* req, int status) {
   int cid = (int)(long) req->data;
   cli[cid].cbs++; cli[cid].status = status;
-  printf("concb %d status=%d\n", cid, status);
+  { struct sockaddr_storage ss; socklen_t l = sizeof ss; int fd = -1, peer = 0;
+    if (!cli[cid].closed && uv_fileno((uv_handle_t*) cli[cid].h, &fd) == 0) peer = getpeername(fd, (struct sockaddr*) &ss, &l) == 0;
+    printf("concb %d status=%d peer=%d\n", cid, status, peer); }
   if (status == 0 && !cli[cid].closed) {
     char b = (char) cid; uv_buf_t buf = uv_buf_init(&b, 1);
     int r = uv_try_write(cli[cid].h, &buf, 1);
@@ -290,7 +313,8 @@ int main(void) {
     char* w[80]; int n = 0, i;
     for (char* t = strtok(line, " \n"); t && n < 80; t = strtok(NULL, " \n")) w[n++] = t;
     if (n == 0) continue;
-    if (!strcmp(w[0], "server") && n == 4) {
+    if (!strcmp(w[0], "cscript")) { ncscript = icscript = 0; for (i = 1; i < n && i <= 32; i++) cscript[ncscript++] = atoi(w[i]); printf("cscript %d\n", ncscript);
+    } else if (!strcmp(w[0], "server") && (n == 4 || n == 5)) {
       int sid = atoi(w[1]), r; server_t* s = &srv[sid]; struct sockaddr_storage ss; int len = sizeof ss;
       s->kind = !strcmp(w[2], "t4") ? 0 : !strcmp(w[2], "t6") ? 1 : 2;
       s->mode = !strcmp(w[3], "imm") ? 0 : !strcmp(w[3], "defer") ? 1 : 2;
@@ -298,7 +322,7 @@ int main(void) {
       if (s->kind == 2) { snprintf(s->path, sizeof s->path, "/var/tmp/c07sim-%d-%d.sock", pid, sid); unlink(s->path); r = uv_pipe_bind((uv_pipe_t*) s->h, s->path); }
       else if (s->kind == 0) { struct sockaddr_in a; uv_ip4_addr("127.0.0.1", 0, &a); r = uv_tcp_bind((uv_tcp_t*) s->h, (struct sockaddr*) &a, 0); }
       else { struct sockaddr_in6 a; uv_ip6_addr("::1", 0, &a); r = uv_tcp_bind((uv_tcp_t*) s->h, (struct sockaddr*) &a, 0); }
-      if (r == 0) r = uv_listen(s->h, 64, conn_cb);
+      if (r == 0) r = uv_listen(s->h, n == 5 ? atoi(w[4]) : 64, conn_cb);
       if (r == 0 && s->kind != 2) { uv_tcp_getsockname((uv_tcp_t*) s->h, (struct sockaddr*) &ss, &len); s->port = ntohs(((struct sockaddr_in*) &ss)->sin_port); }
       s->alive = r == 0;
       printf("server %d r=%d\n", sid, r);
@@ -308,16 +332,18 @@ int main(void) {
       if (c->raw) {
         char b = (char) cid;
         c->fd = socket(ss.ss_family, SOCK_STREAM, 0);   /* blocking connect: completes in the backlog on loopback */
-        r = connect(c->fd, (struct sockaddr*) &ss, len); if (r) r = -errno;
+        r = syscall(SYS_connect, c->fd, (struct sockaddr*) &ss, len); if (r) r = -errno;
         if (r == 0) send(c->fd, &b, 1, MSG_NOSIGNAL);
         c->ret = r; c->status = r; c->cbs = 1;
         printf("raw %d r=%d\n", cid, r);
       } else {
         c->h = new_stream(srv[sid].kind); c->req.data = (void*)(long) cid;
+        cur_cid = cid;
         if (srv[sid].kind == 2) { uv_pipe_connect(&c->req, (uv_pipe_t*) c->h, srv[sid].path, connect_cb); r = 0; }
         else r = uv_tcp_connect(&c->req, (uv_tcp_t*) c->h, (struct sockaddr*) &ss, connect_cb);
+        cur_cid = -1; ncscript = icscript = 0;
         c->ret = r;
-        printf("uvc %d r=%d\n", cid, r);
+        printf("uvc %d r=%d kind=%s\n", cid, r, srv[sid].kind == 2 ? "pipe" : "tcp");
       }
     } else if (!strcmp(w[0], "run") && n == 2) { run_n(atoi(w[1])); printf("ran spare=%d\n", loop->emfile_fd != -1);
     } else if (!strcmp(w[0], "inject")) { ninject = iinject = 0; for (i = 1; i < n; i++) inject[ninject++] = atoi(w[i]); printf("inject %d\n", ninject);
